@@ -15,9 +15,9 @@ from vlib.runner import HERE, Outcome, hyp_search
 
 ID = "C12"
 LEVEL = "exploration"
-RULE = ("Each shard fixes a pool of 7 documents (generated ones that deliberately share object numbers, the resource "
+RULE = ("Each shard fixes a pool of 8 documents (generated ones that deliberately share object numbers, the resource "
         "name /F1, BaseFont names, base encodings differing only in /Differences, predefined CMap names with different "
-        "ToUnicode maps, multi-page members, a grid of equidistant labels; plus repository samples incl. an AES-encrypted one and CJK ones). "
+        "ToUnicode maps, multi-page members, a grid of equidistant labels, two Type0 fonts sharing one descendant; plus repository samples incl. an AES-encrypted one and CJK ones). "
         "Hypothesis draws call histories (model-based op lists) run in one long-lived process: extract_text, "
         "extract_pages to completion, open a page iterator, advance any open iterator (interleaving documents), extract "
         "a single page by page_numbers, extract_text_to_fp(xml); each with caching on/off and LAParams default or "
@@ -86,6 +86,19 @@ def gen_doc(kind, variant):
         text = "あいう漢字" if variant % 2 == 0 else "カタカナ字"
         raw = text.encode("utf-16-be") if "Uni" in cm else text.encode("cp932")
         pages = [b"BT /F1 12 Tf 50 700 Td <%s> Tj ET" % raw.hex().encode(), b"BT /F1 12 Tf 50 650 Td <%s> Tj ET" % raw[:4].hex().encode()]
+    elif kind == "shared":
+        # two Type0 fonts share ONE descendant CIDFont object; only the first has a /ToUnicode.  Whatever the first
+        # font adds to the (cached) descendant must not show in the second, whichever page is extracted first.
+        from vlib import cidfonts as C
+
+        tu, _ = F.tounicode_cmap({1: "A", 2: "B", 3: "C"}, codelen=2)
+        objs[13] = W.Stream({}, tu)
+        objs[12] = C.descendant("CIDFontType2", "Adobe-Identity", W.R(14), basefont="Shared", DW=1000, W=[1, [500, 600 + variant]])
+        objs[14] = C.font_descriptor("Shared")
+        objs[10] = C.type0(W.N("Identity-H"), W.R(12), W.R(13), basefont="Shared")
+        objs[15] = C.type0(W.N("Identity-H" if variant % 2 == 0 else "Identity-V"), W.R(12), basefont="Shared")
+        pages = [b"BT /F1 12 Tf 50 700 Td <000100020003> Tj ET", b"BT /F2 12 Tf 50 700 Td <000100020003> Tj ET",
+                 b"BT /F2 12 Tf 50 600 Td <0003> Tj /F1 12 Tf <0003> Tj ET"]
     elif kind == "grid":
         # labels on a regular grid: many pairs of text boxes are exactly equally far apart, so the grouping order
         # is decided by tie-breaking
@@ -102,7 +115,7 @@ def gen_doc(kind, variant):
     for i, c in enumerate(pages):
         objs[20 + 2 * i] = W.Stream({}, c)
         objs[21 + 2 * i] = W.D(Type=W.N("Page"), Parent=W.R(2), MediaBox=[0, 0, 612, 792], Contents=W.R(20 + 2 * i),
-                               Resources={b"Font": {b"F1": W.R(10)}})
+                               Resources={b"Font": {b"F1": W.R(10), b"F2": W.R(15 if 15 in objs else 10)}})
         kids.append(W.R(21 + 2 * i))
     objs[1] = W.D(Type=W.N("Catalog"), Pages=W.R(2))
     objs[2] = W.D(Type=W.N("Pages"), Kids=kids, Count=len(kids))
@@ -132,6 +145,7 @@ def make_pool(rnd):
     pool.append(["gen", k, v[0]])
     pool.append(["gen", k, v[1]])
     pool.append(["gen", "grid", rnd.randrange(2)])
+    pool.append(["gen", "shared", rnd.randrange(2)])
     for s in rnd.sample(SAMPLES, 2):
         pool.append(["sample", s[0], s[1]])
     order = list(range(len(pool)))
@@ -333,7 +347,7 @@ def _pagesdiff(a, b):
 
 # ---------------------------------------------------------------------------------------------- generators
 def op_strategy():
-    d = st.integers(0, 6)
+    d = st.integers(0, 7)
     la = st.sampled_from(LAS)
     c = st.booleans()
     return st.one_of(
